@@ -243,9 +243,13 @@ impl FloatEncoding for f32 {
                 round_bits = 0; // not rounding is required
                 mantissa <<= shift as u32;
             } else {
-                let shifted = mantissa << (30 + shift) as u32;
-                round_bits = (shifted >> 28 & 0b110) as u8 | ((shifted & 0xfffffff) != 0) as u8;
-                mantissa >>= (-shift) as u32;
+                let s = (-shift) as u32; // 1..=32
+                // the bits below the cut, aligned to the top of a word
+                let frac = ((mantissa as u64) << (32 - s)) as u32;
+                let kept = if s >= 32 { 0 } else { mantissa >> s };
+                round_bits =
+                    ((kept & 1) << 2) as u8 | ((frac >> 31) << 1) as u8 | ((frac << 1) != 0) as u8;
+                mantissa = kept;
             }
 
             // then compose the bit representation of f32
@@ -266,7 +270,7 @@ impl FloatEncoding for f32 {
             bits = (sign << 31) | (exponent << 23) | (mantissa >> 9);
 
             // get the low bit of mantissa and two extra bits, and adding round-to-even adjustment
-            round_bits = ((mantissa >> 7) & 0b110) as u8 | ((mantissa & 0x7f) != 0) as u8;
+            round_bits = ((mantissa >> 7) & 0b110) as u8 | ((mantissa & 0xff) != 0) as u8;
         };
 
         if round_bits & 0b11 == 0 {
@@ -364,10 +368,13 @@ impl FloatEncoding for f64 {
                 round_bits = 0; // not rounding is required
                 mantissa <<= shift as u32;
             } else {
-                let shifted = mantissa << (62 + shift) as u64;
+                let s = (-shift) as u32; // 1..=64
+                // the bits below the cut, aligned to the top of a word
+                let frac = ((mantissa as u128) << (64 - s)) as u64;
+                let kept = if s >= 64 { 0 } else { mantissa >> s };
                 round_bits =
-                    (shifted >> 60 & 0b110) as u8 | ((shifted & 0xfffffffffffffff) != 0) as u8;
-                mantissa >>= (-shift) as u32;
+                    ((kept & 1) << 2) as u8 | ((frac >> 63) << 1) as u8 | ((frac << 1) != 0) as u8;
+                mantissa = kept;
             }
 
             // then compose the bit representation of f64
@@ -388,7 +395,7 @@ impl FloatEncoding for f64 {
             bits = (sign << 63) | (exponent << 52) | (mantissa >> 12);
 
             // get the low bit of mantissa and two extra bits, and adding round-to-even adjustment
-            round_bits = ((mantissa >> 10) & 0b110) as u8 | ((mantissa & 0x3ff) != 0) as u8;
+            round_bits = ((mantissa >> 10) & 0b110) as u8 | ((mantissa & 0x7ff) != 0) as u8;
         };
 
         if round_bits & 0b11 == 0 {
